@@ -24,6 +24,8 @@ Directive reference
   //@@ rewrite <rule> [count N|all|optional]  then a `//@@- old` line and a `//@@+ new` line
   //@@ keepattrs                 do not drop attributes / doc comments
   //@@ nocanary                  no `ensures false` twin for this fn
+  //@@ closure [nth N] `|x|` as `|x: T| -> (o: R)`   R23: following lines = requires/ensures of that closure;
+                                 its body is kept verbatim (wrapped in a block when it is a bare expression)
   //@@ splitchain                R17: `for P in A.chain(B) {BODY}` => two loops with the verbatim body
   //@@ sigonly                   keep only the signature (body replaced by `;`-less
                                  external_body stub: `{ unimplemented!() }`)
@@ -541,6 +543,40 @@ def weave_item(hdr, subs, stats):
             ot.replace(pos + m10.start(), pos + m10.end(), "|_e|")
             pos += m10.start() + 4
         log.append({"rule": "R10 wildcard closure parameter renamed", "before": "|_|", "after": "|_e|", "count": n10})
+    # R23: a closure gets a contract (Verus wants typed parameters, a named result and a block body for that);
+    # the closure's body text is kept verbatim
+    for d in sorted((d for d in subs if d["op"] == "closure"), key=lambda d: -d["nth"]):
+        # occurrences are numbered on the unwoven text: later ones are handled first
+        tk = tokenize(ot.s)
+        a, b = _tok_find(tk, d["anchor"], d["nth"], what)
+        j = b + 1
+        if j >= len(tk):
+            raise WeaveError(f"{what}: nothing after closure header `{d['anchor']}`")
+        if tk[j].text == "{":
+            body_s, body_e, block = tk[j].start, tk[match_close(tk, j)].end, True
+        else:
+            dep, k = 0, j
+            while k < len(tk):
+                tx = tk[k].text
+                if tk[k].kind == "punct":
+                    if tx in "([{":
+                        dep += 1
+                    elif tx in ")]}":
+                        if dep == 0:
+                            break
+                        dep -= 1
+                    elif tx in (",", ";") and dep == 0:
+                        break
+                k += 1
+            body_s, body_e, block = tk[j].start, tk[k - 1].end, False
+        body = ot.s[body_s:body_e]
+        contract = "\n" + d["text"].rstrip() + "\n"
+        if not block:
+            ot.replace(body_e, body_e, " }")
+            ot.replace(body_s, body_s, "{ ")
+        ot.replace(tk[a].start, tk[b].end, d["sig"] + contract)
+        log.append({"rule": "R23 closure given a contract (typed parameter, named result, block body; body text verbatim)",
+                    "before": d["anchor"] + " " + " ".join(body.split())[:120], "after": d["sig"] + " requires/ensures .. { same body }"})
     for d in subs:
         if d["op"] == "receiver":
             tk = tokenize(ot.s)
@@ -625,6 +661,7 @@ def weave_item(hdr, subs, stats):
     ins = []  # (pos, text, order)
     order = 0
     clauses = 0
+    clauses += sum(_count_clauses(d["text"]) for d in subs if d["op"] == "closure")
 
     def add(pos, text):
         nonlocal order
@@ -1080,6 +1117,13 @@ def parse_template(path, seen=None):
                         d["count"] = int(mm.group(2)) if mm.group(2) else (mm.group(3) if mm.group(3) else 1)
                         subs.append(d)
                         i += 2
+                    elif op == "closure":
+                        mm = re.match(r"(?:nth\s+(\d+)\s+)?`(.*?)`\s+as\s+`(.*)`\s*$", rest)
+                        if not mm:
+                            raise WeaveError(f"{path}:{i+1}: bad closure directive")
+                        cur = {"op": "closure", "anchor": mm.group(2), "sig": mm.group(3), "text": "",
+                               "nth": int(mm.group(1) or 1)}
+                        subs.append(cur)
                     elif op == "receiver":
                         subs.append({"op": "receiver", "text": rest.strip()})
                     elif op == "truncate":
